@@ -18,13 +18,15 @@ Chars(c, k) == [j \in 1..k |-> IF c = 1 THEN (IF j = 1 THEN 35 ELSE IF j = k THE
 Frames == {<< <<>>, <<>> >>, << <<120>>, <<>> >>, << <<1001, 58>>, <<124, 121>> >>}      \* (pre, suf): "", "x"/"", "CJK :"/"|y"
 
 BarCfgs == { [op |-> "new", kind |-> "bar", n |-> N, dflt |-> FALSE, c |-> c, chars |-> Chars(c, k), haslen |-> len >= 0, len |-> IF len >= 0 THEN len ELSE 0,
-              pre |-> <<91>>, suf |-> <<93>>, tw |-> 200, order |-> o] : N \in Ns, c \in Cs, k \in Ks, len \in Lens \cup BigLens \cup Unk, o \in Orders }
+              pre |-> <<91>>, suf |-> <<93>>, tw |-> 200, order |-> o, tw0 |-> 0] : N \in Ns, c \in Cs, k \in Ks, len \in Lens \cup BigLens \cup Unk, o \in Orders }
             \cup { [op |-> "new", kind |-> "bar", n |-> 20, dflt |-> TRUE, c |-> c, chars |-> Chars(c, 3), haslen |-> TRUE, len |-> 7,
-              pre |-> <<91>>, suf |-> <<93>>, tw |-> 200, order |-> o] : c \in Cs, o \in Orders }
+              pre |-> <<91>>, suf |-> <<93>>, tw |-> 200, order |-> o, tw0 |-> 0] : c \in Cs, o \in Orders }
 WideCfgs == IF ~Wide THEN {} ELSE
-            { [op |-> "new", kind |-> "wide", n |-> IF tw >= Cols(fr[1]) + Cols(fr[2]) THEN tw - Cols(fr[1]) - Cols(fr[2]) ELSE 0, dflt |-> FALSE, c |-> c, chars |-> Chars(c, k),
-               haslen |-> len >= 0, len |-> IF len >= 0 THEN len ELSE 0, pre |-> fr[1], suf |-> fr[2], tw |-> tw, order |-> o] :
-                 tw \in TWs, c \in Cs, k \in WKs, len \in WLens \cup Unk, fr \in Frames, o \in Orders }
+            UNION { { [op |-> "new", kind |-> "wide", n |-> IF tw >= Cols(fr[1]) + Cols(fr[2]) THEN tw - Cols(fr[1]) - Cols(fr[2]) ELSE 0, dflt |-> FALSE, c |-> c, chars |-> Chars(c, k),
+                       haslen |-> len >= 0, len |-> IF len >= 0 THEN len ELSE 0, pre |-> fr[1], suf |-> fr[2], tw |-> tw, order |-> o, tw0 |-> t0] :
+                         (* tw0 > 0: the bar is a member of a MultiProgress that painted once on a terminal of tw0 columns before the terminal got its width tw *)
+                         t0 \in {0} \cup (IF o = "tc" /\ fr[2] = <<>> THEN {tw + 7} ELSE {}) } :
+                    tw \in TWs, c \in Cs, k \in WKs, len \in WLens \cup Unk, fr \in Frames, o \in Orders }
 
 RECURSIVE SortedSeq(_)
 SortedSeq(S) == IF S = {} THEN <<>> ELSE LET m == SetMin(S) IN <<m>> \o SortedSeq(S \ {m})
